@@ -164,7 +164,7 @@ def run(F, tier, res):
             res.violate('FRESH', 'fn=%s' % p, 'the hunk-header emitter can return without re-creating the highlighter: parser state of the previous hunk leaks into the next', where=F.bodies[p]['mir']['span']['at'])
     res.rule('C15.FRESH', nf, 1, 'hunk-header emitters; every non-error path re-creates the highlighter (writers of Painter.highlighter: %s)' % sorted(x.split('::')[-1] for x in hl_writers), discharged=okf)
     # ---------- STALE-SYNTAX
-    E.add_e1(res, R, {'STALE-SYNTAX'}, 'C15')
+    E.add_e1(res, R, {'STALE-SYNTAX', 'HL-SWAP'}, 'C15')
     N = R['N']
     # ---------- COALESCE: adjacent characters share one painted section only if their (syntax style, diff style) pairs agree on
     # everything the section's final style is computed from - in particular on whether the diff style asks for syntax colours at all
